@@ -3,7 +3,8 @@ package recent_history
 // X-step driver for C25 (in-package: serLastAccOut / lastAccOutRoot are unexported).
 // Replays TLC-expanded block histories (a) function by function — History2HistoryDagger,
 // serLastAccOut, lastAccOutRoot, AppendAndCommitMmr, MapWorkReportFromEg, NewItem, AddItem2BetaHPrime —
-// and (b) through STFBetaH2BetaHDagger + STFBetaHDagger2BetaHPrime on the chain-state singleton.
+// (b) through STFBetaH2BetaHDagger + STFBetaHDagger2BetaHPrime on the chain-state singleton and
+// (c) through STFBetaHDagger2BetaHPrime_ForTestVector ("tv": header hash in Header.Parent, commitment given).
 // The specification's terms (want_*) are evaluated with the generic evaluator (real Keccak);
 // nothing is compared here: spec/stf/RecentHistory_Trace.tla judges the recorded events.
 
@@ -119,7 +120,7 @@ func TestRun(t *testing.T) {
 	out := vfd.NewOut(vfd.Env("VF_OUT", "trace.ndjson"))
 	defer out.Close()
 	for _, c := range cases {
-		for _, api := range []string{"fn", "stf"} {
+		for _, api := range []string{"fn", "stf", "tv"} {
 			init := c["init"].(map[string]any)
 			hist := histIn(init["hist"])
 			belt := types.Mmr{Peaks: peaksIn(init["belt"])}
@@ -161,6 +162,27 @@ func TestRun(t *testing.T) {
 						rec["got_p"] = pkgsOut(ps)
 						item := NewItem(types.HeaderHash(h32(b["hh"])), ps, commit)
 						next = AddItem2BetaHPrime(dagger, item)
+						rec["got_hist"] = histOut(next)
+						return
+					}
+					if api == "tv" {
+						// the test-vector variant: header hash is carried in Header.Parent, the commitment comes
+						// from the intermediate state, the belt is maintained outside (here: the specification's)
+						blockchain.ResetInstance()
+						cs := blockchain.GetInstance()
+						hdr := types.Header{Parent: types.HeaderHash(h32(b["hh"])), ParentStateRoot: proot, Slot: types.TimeSlot(bi + 1)}
+						cs.AddBlock(types.Block{Header: hdr, Extrinsic: types.Extrinsic{Guarantees: eg}})
+						cs.GetPriorStates().SetBeta(types.RecentBlocks{History: hist, Mmr: belt})
+						STFBetaH2BetaHDagger()
+						rec["got_dagger"] = histOut(cs.GetIntermediateStates().GetBetaHDagger())
+						cs.GetIntermediateStates().SetMmrCommitment(h32(rec["want_b"]))
+						if err := STFBetaHDagger2BetaHPrime_ForTestVector(); err != nil {
+							rec["err"] = err.Error()
+							return
+						}
+						next = cs.GetPosteriorStates().GetBeta().History
+						nextBelt = types.Mmr{Peaks: peaksIn(b["want_belt"])}
+						rec["got_belt"] = rec["want_belt"]
 						rec["got_hist"] = histOut(next)
 						return
 					}
